@@ -386,8 +386,42 @@ Definition chk (b : bool) : bool := b.
     chk.violation('oracle', 'one Variable reached twice under equal axis specifications is not treated as one object', pr['alias_consistent'])
   if 'err' not in pr['out_axes_none'] or 'err' not in pr['two_carries']:
     chk.violation('oracle', 'broadcast output state / two Carry arguments were accepted by nnx.scan', {'out_axes_none': pr['out_axes_none'], 'two_carries': pr['two_carries']})
+  # two further implementation-side families: shared Variables under two DiffState filters; split_rngs + vmap histories
+  FN = ['Param', 'a', 'b', 'w', 'not_w', 'all', 'none', 'ab', 'list_w_a']
+  alias = [{'f0': f0, 'f1': f1, 'vg': (i + j) % 2 == 1, 'x': rng.randint(1, 3), 'a': rng.randint(-3, 3), 'b': rng.randint(-3, 3), 'w': rng.randint(1, 4)}
+           for i, f0 in enumerate(FN) for j, f1 in enumerate(FN)]
+  rcases = [{'form': rng.choice(['decorator', 'context', 'explicit']), 'only': rng.choice([None, 'noise']), 'splits': rng.randint(2, 4), 'extra': rng.randint(0, 2),
+             'seed': rng.randint(0, 50), 'ncalls': rng.randint(2, 3), 'between': rng.random() < 0.4} for _ in range(160 if thorough else 32)]
+  W2 = 12
+  xr = common.run_impl_parallel('impl_c08_extra.py', [{'alias': alias[i::W2], 'rng': rcases[i::W2]} for i in range(W2)], workers=W2, timeout=3000)
+  stat['alias_diffstate'] = {'cases': 0, 'must_reject': 0, 'accepted': 0}
+  for k, r in enumerate(xr):
+    for c, o in zip(alias[k::W2], r['alias']):
+      chk.count(c, True)
+      st = stat['alias_diffstate']
+      st['cases'] += 1
+      disagree = o['sel']['w0'] != o['sel']['w1']
+      st['must_reject'] += disagree
+      impl, ref = o['impl'], o['ref']
+      if 'err' in impl:
+        if 'nconsistent aliasing' not in impl.get('msg', '') or c['f0'] == c['f1']:
+          chk.violation('oracle', 'nnx.%s over two arguments sharing a Param, DiffState filters %s / %s, raised %s' % ('value_and_grad' if c['vg'] else 'grad', c['f0'], c['f1'], impl['err']),
+                        {'case': c, 'observed': o})
+        continue
+      st['accepted'] += 1
+      if disagree:
+        chk.violation('oracle', 'two differentiated arguments share a Param that the DiffState filter of one selects and of the other does not (%s / %s): accepted instead of rejected as '
+                      'inconsistent aliasing' % (c['f0'], c['f1']), {'case': c, 'observed': o})
+      elif 'err' in ref or impl['ok'] != ref['ok']:
+        chk.violation('oracle', 'nnx.grad over two arguments sharing a Param differs from jax.grad of the loss as a function of the selected Variables', {'case': c, 'observed': o})
+    for c, o in zip(rcases[k::W2], r['rng']):
+      chk.count(c, True)
+      stat['rng_vmap'] = stat.get('rng_vmap', 0) + 1
+      if 'err' in o['impl'] or 'err' in o['ref'] or o['impl']['ok'] != o['ref']['ok']:
+        chk.violation('oracle', 'a history of %d calls of an nnx.vmap-ed function under nnx.split_rngs (%s form, only=%s) differs from the per-index loop with keys split(stream(), n)[i], or '
+                      'leaves the Rngs in another state than (key, count + 1 per call)' % (c['ncalls'], c['form'], c['only']), {'case': c, 'observed': o})
   chk.notes['stats'] = stat
   chk.cov['rule'] = ('modules with 1-5 Variables (5 types incl. a subclass, top-level and nested paths) x StateAxes of 0-4 (filter, axis 0 / 1 / None / Carry) entries with and without a catch-all x '
                      'non-square shapes of rank 0-3 x integer bodies (add expression to a Variable, scale, set carry; sums, mapped input, carry) x lengths 1-4 x reverse; losses = random polynomials, '
-                     'wrt filters, DiffState, has_aux, value_and_grad, forward-pass counters. non-trivial = an axis / carry group with length > 1, or more than one Variable for grad')
-  chk.cov['trusted_base'] = ['Coq 8.16.1 kernel + vm_compute', 'harness/c08.py, impl_c08.py', 'harness/jaxcompat.py', 'jax.vmap, lax.scan, jax.grad']
+                     'wrt filters (also as lists / tuples), DiffState, has_aux, value_and_grad, forward-pass counters; two differentiated arguments sharing a Param under all 81 pairs of 9 DiffState filters; histories of 2-3 calls of a vmap-ed noisy module under split_rngs (decorator / context manager / restore_rngs, only=). non-trivial = an axis / carry group with length > 1, or more than one Variable for grad')
+  chk.cov['trusted_base'] = ['Coq 8.16.1 kernel + vm_compute', 'harness/c08.py, impl_c08.py, impl_c08_extra.py', 'harness/jaxcompat.py', 'jax.vmap, lax.scan, jax.grad']
